@@ -484,8 +484,15 @@ func c08live(c *Ctx, r *Rng, quick bool) {
 			if pr.stripB {
 				vb += "x"
 			}
-			if _, err := a.Ping(b.Self()); err != nil {
-				emit("live-error ping | %v", err)
+			var perr error
+			for try := 0; try < 6; try++ { // on a loaded machine the first RPC may time out
+				if _, perr = a.Ping(b.Self()); perr == nil {
+					break
+				}
+			}
+			if perr != nil {
+				count("live_unobserved_no_handshake")
+				emit("live-unobserved ping | %s", strings.ReplaceAll(perr.Error(), " ", "_"))
 				return
 			}
 			// responder's table: signed records so that the asker can verify them
@@ -502,12 +509,12 @@ func c08live(c *Ctx, r *Rng, quick bool) {
 			maxOut := func() int {
 				m := 0
 				for _, d := range b.Datagrams() {
-					if d.Out && d.Size > m {
+					if !d.Out && d.Size > m { // logged by the reader before the datagram is processed: no race with the call returning
 						m = d.Size
 					}
 				}
 				for _, d := range a.Datagrams() {
-					if d.Out && d.Size > m {
+					if !d.Out && d.Size > m {
 						m = d.Size
 					}
 				}
@@ -530,6 +537,10 @@ func c08live(c *Ctx, r *Rng, quick bool) {
 					} else {
 						obs = fmt.Sprintf("ok %d notbytes 0 %d", flag, maxOut())
 					}
+				} else if hTimeoutErr(err) {
+					// an RPC / uTP timeout on a loaded machine proves nothing either way
+					obs = "unobserved " + strings.ReplaceAll(err.Error(), " ", "_")
+					count("live_transfer_unobserved")
 				} else {
 					obs = "err " + strings.ReplaceAll(err.Error(), " ", "_")
 				}
@@ -567,8 +578,13 @@ func c08live(c *Ctx, r *Rng, quick bool) {
 						}
 						obs = fmt.Sprintf("ok %s %d", hTagList(tags), maxOut())
 					} else {
-						obs = fmt.Sprintf("ok wrong-selector-%d 0", flag)
+						obs = fmt.Sprintf("err wrong-selector-%d", flag)
 					}
+				} else if hTimeoutErr(err) {
+					obs = "unobserved " + strings.ReplaceAll(err.Error(), " ", "_")
+					count("live_enrs_unobserved")
+				} else {
+					obs = "err " + strings.ReplaceAll(err.Error(), " ", "_")
 				}
 				count("live_enrs")
 				emit("lfe %s %s ; %s %s %s | %s", va, vb, c20idHexC08(a.Self().ID()), new(big.Int).SetBytes(cid[:]).Text(16), hTagList(recs), obs)
